@@ -3488,6 +3488,8 @@ class WaitMatch(Match):
     def convert(self, current_error_handlers: dict):
         sm = self.match_contents.convert(current_error_handlers)
         for state, trans in sm.transitions_pointing_to(current_error_handlers[ErrorReasons.NO_MATCH], True):
+            if state not in sm.states:
+                continue # reached through a break's target: that is code after the loop, not part of the wait
             trans.to(sm.starting_state).handles_else()  # we make these error handling since that makes semantic sense for the usual use case for a wait node
             if state == sm.starting_state:
                 trans.fallthrough(False).attach(*self.char_actions)
